@@ -314,6 +314,9 @@ MODELS = {
     "a0+a1*x": (2, lambda X: [np.ones_like(X), X]),
     "a0*x+a1*x**2": (2, lambda X: [X, X ** 2]),
     "a0+a1*x+a2*x**2": (3, lambda X: [np.ones_like(X), X, X ** 2]),
+    # five parameters: beyond the four parameter symbols the fitting modules predefine (max_param = 5, as test_all.main has it from
+    # complexity 11 on and fit_from_string for a five-parameter formula)
+    "a0+a1*sin(x)+a2*cos(x)+a3*sin(2*x)+a4*cos(2*x)": (5, lambda X: [np.ones_like(X), np.sin(X), np.cos(X), np.sin(2 * X), np.cos(2 * X)]),
 }
 
 
@@ -331,7 +334,14 @@ def cmd_fits():
             B = np.array(basis(X))
             true = np.array(jb["true"], dtype=float)
             sig = np.full_like(X, jb.get("sigma", 0.5))
-            Y = true @ B + sig * rs.standard_normal(len(X))
+            noise = rs.standard_normal(len(X))
+            if jb.get("weak"):
+                # a one-parameter model measured at jb["weak"] sigma: the noise is made orthogonal to the model direction, so the
+                # weighted-least-squares estimate is the planted value and NLL(0) - NLL(min) = weak**2 / 2
+                g = B[0]
+                noise = noise - g * (noise @ g) / (g @ g)
+                sig = np.full_like(X, abs(true[0]) * np.sqrt(g @ g) / jb["weak"])
+            Y = true @ B + sig * noise
             np.savetxt(root + "/data.txt", np.transpose([X, Y, sig]))
             with contextlib.redirect_stdout(io.StringIO()):
                 lik = L.GaussLikelihood("data.txt", "c10fit", data_dir=root)
@@ -345,9 +355,9 @@ def cmd_fits():
             np.random.seed(jb["seed"])
             with contextlib.redirect_stdout(io.StringIO()):
                 v, p = test_all.optimise_fun(fcn, lik, 5, jb["pmin"], jb["pmax"], comp=0, log_opt=jb["log_opt"],
-                                             max_param=4)
+                                             max_param=max(4, npar))
             p = np.array(p, dtype=float)
-            eqn = sympy.lambdify([SX] + param_symbols(npar), sympy.sympify(fcn, locals={"x": SX, "a0": A0, "a1": A1, "a2": A2}),
+            eqn = sympy.lambdify([SX] + param_symbols(npar), sympy.sympify(fcn, locals=dict({"x": SX}, **{"a%d" % i: q for i, q in enumerate(param_symbols(npar))})),
                                  modules=["numpy"])
             at_ret = float(lik.negloglike(list(p[:npar]), eqn))
             out.append({"value": float(v), "params": [float(q) for q in p], "nll_at_returned": at_ret,
